@@ -37,6 +37,25 @@ fn same_frag(a: &FragmentRef, b: &FragmentRef) -> bool {
 }
 
 thread_local! {
+	/// when set, code-map spans are byte offsets into the UTF-16 encoding of the source (the document was parsed from
+	/// characters whose lengths were reported in UTF-16 bytes)
+	pub static NAV_UTF16: std::cell::Cell<bool> = std::cell::Cell::new(false);
+}
+
+/// the slice of the source a span designates, in the coordinates the document was parsed with
+fn slice_of(src: &str, start: usize, end: usize) -> Option<String> {
+	if NAV_UTF16.with(|m| m.get()) {
+		if start % 2 != 0 || end % 2 != 0 || start > end {
+			return None;
+		}
+		let units: Vec<u16> = src.encode_utf16().collect();
+		units.get(start / 2..end / 2).and_then(|u| String::from_utf16(u).ok())
+	} else {
+		src.get(start..end).map(|t| t.to_string())
+	}
+}
+
+thread_local! {
 	/// the options the document under navigation was parsed with (its slices are re-parsed with the same ones)
 	pub static NAV_OPTIONS: RefCell<json_syntax::parse::Options> = RefCell::new(json_syntax::parse::Options::strict());
 }
@@ -52,10 +71,11 @@ fn span_is(src: &str, cm: &CodeMap, off: usize, f: &FragmentRef) -> bool {
 		Some(e) => e,
 		None => return false,
 	};
-	let text = match src.get(e.span.start()..e.span.end()) {
+	let text = match slice_of(src, e.span.start(), e.span.end()) {
 		Some(t) => t,
 		None => return false,
 	};
+	let text = text.as_str();
 	match f {
 		FragmentRef::Value(v) => reparse(text).map(|x| x == **v).unwrap_or(false),
 		FragmentRef::Key(k) => reparse(text).map(|x| x.as_str() == Some(k.as_str())).unwrap_or(false),
